@@ -1,7 +1,4 @@
 // ---------------------------------------------------------------- the Thompson construction of a whole AST, as a pure function (what try_from_ast must compute)
-/// `ComparableAst::eq`: when two leaf ASTs denote the same character class for the registry (trusted, see add_character_class)
-pub uninterp spec fn same_class(a: Ast, b: Ast) -> bool;
-
 pub open spec fn reg_has(reg: Seq<Ast>, a: Ast, i: int) -> bool {
     0 <= i < reg.len() && same_class(reg[i], a) && forall|j: int| 0 <= j < i ==> !same_class(#[trigger] reg[j], a)
 }
